@@ -8,6 +8,7 @@ import (
 	txfile "github.com/elastic/go-txfile"
 
 	"verifharness/engine"
+	"verifharness/simdisk"
 )
 
 // LayoutCase writes events of the given sizes to a fresh queue (random
@@ -18,6 +19,12 @@ func LayoutCase(r *engine.RNG, P int, sizes []int) (line string, fails []Failure
 	line, _, fails = LayoutAckCase(r, P, sizes, false)
 	return line, fails
 }
+
+// LayoutFaultPct > 0: that percentage of the writer calls of a LayoutAckCase runs with failing I/O.
+var LayoutFaultPct int
+
+// LayoutCallsFailed: writer calls of the most recent LayoutAckCase that returned an error.
+var LayoutCallsFailed int
 
 // LastWriterOps is the request line for the Lean writer model of the most recent LayoutAckCase
 // (the expected result is the decoded page chain plus the tail position).
@@ -31,40 +38,75 @@ func LayoutAckCase(r *engine.RNG, P int, sizes []int, withAck bool) (line, ackLi
 	if s.Open() != "ok" {
 		return "", "", []Failure{{Prop: "C05", Kind: "open", Msg: "open failed"}}
 	}
-	var ops []string // the calls, for the Lean writer model: w<n> (Write of n bytes), n (Next), f (Flush)
+	var ops []string // the calls, for the Lean writer model: w<n> (Write of n bytes), n (Next), f (Flush); "!" = under an I/O fault
+	var errs []byte  // per call: '1' = the call returned an error
+	faulty := LayoutFaultPct > 0
+	LayoutCallsFailed = 0
+	// call runs fn, under LayoutFaultPct percent of the calls with every write (or every sync) failing
+	// for the duration of the call: a flush transaction started by the call fails in flushPages / Commit
+	call := func(tok string, fn func() string) string {
+		inject := faulty && r.Chance(LayoutFaultPct)
+		if inject {
+			kind := []string{"write", "sync"}[r.Intn(2)]
+			s.Disk.SetFault(func(k string, n, total int) simdisk.Action {
+				if k == kind {
+					return simdisk.ActErr
+				}
+				return simdisk.ActOK
+			})
+			tok += "!"
+		}
+		res := fn()
+		if inject {
+			s.Disk.SetFault(nil)
+		}
+		ops = append(ops, tok)
+		if res == "ok" {
+			errs = append(errs, '0')
+		} else {
+			errs = append(errs, '1')
+			LayoutCallsFailed++
+		}
+		return res
+	}
 	for _, sz := range sizes {
 		left := sz
-		for left > 0 {
+		for tries := 0; left > 0; {
 			n := left
 			if r.Chance(50) {
 				n = 1 + r.Intn(left)
 			}
-			if s.WriteChunk(n) != "ok" {
-				return "", "", append(s.Failures, Failure{Prop: "C05", Kind: "write", Msg: "write failed on an unbounded file"})
+			if call(fmt.Sprintf("w%d", n), func() string { return s.WriteChunk(n) }) != "ok" {
+				if !faulty || tries > 50 {
+					return "", "", append(s.Failures, Failure{Prop: "C05", Kind: "write", Msg: "write failed on an unbounded file"})
+				}
+				tries++
+				continue // a failed Write appended nothing: write the chunk again
 			}
-			ops = append(ops, fmt.Sprintf("w%d", n))
 			left -= n
 			if left > 0 && r.Chance(10) {
-				s.Flush()
-				ops = append(ops, "f")
+				call("f", s.Flush)
 			}
 		}
-		s.Next()
-		ops = append(ops, "n")
+		call("n", s.Next) // the event is finished whether the implicit flush failed or not
 		if r.Chance(30) {
-			s.Flush()
-			ops = append(ops, "f")
+			call("f", s.Flush)
 		}
 	}
 	if s.Flush() != "ok" {
 		return "", "", append(s.Failures, Failure{Prop: "C05", Kind: "flush", Msg: "final flush failed"})
 	}
 	ops = append(ops, "f")
+	errs = append(errs, '0')
 	bufPages := int(wb) / P
 	if bufPages <= 5 { // pq defaultMinPages
 		bufPages = 5
 	}
 	LastWriterOps = fmt.Sprintf("writerops %d %d %s", P, bufPages, strings.Join(ops, ","))
+	if faulty {
+		// the writer model with failing flushes (Model/PQWriterFail.lean): also predicts which calls fail
+		LastWriterOps = fmt.Sprintf("writeropsf %d %d %s", P, bufPages, strings.Join(ops, ","))
+	}
 	// decode the chain
 	var pages []string
 	var tailID uint64
@@ -152,7 +194,11 @@ func LayoutAckCase(r *engine.RNG, P int, sizes []int, withAck bool) (line, ackLi
 		res = "-"
 	}
 	if len(pages) > 0 {
-		LastWriterOps += fmt.Sprintf(" => %s tail %d:%d:%d", res, tailIdx, tailInPage, tailID)
+		if faulty {
+			LastWriterOps += fmt.Sprintf(" => errs %s %s tail %d:%d:%d", errs, res, tailIdx, tailInPage, tailID)
+		} else {
+			LastWriterOps += fmt.Sprintf(" => %s tail %d:%d:%d", res, tailIdx, tailInPage, tailID)
+		}
 	} else {
 		LastWriterOps = ""
 	}
